@@ -711,6 +711,10 @@ class Executor:
             return Adt(last, 0, {None: [Cell(a) for a in args]})
         if last in self.variant_owner and len(self.variant_owner[last]) == 1:
             return self.mk_enum(self.variant_owner[last][0], last, args)
+        if last in self.variant_owner and getattr(self, '_dest_ty', None):
+            # a bare variant name of several enums: the declared type of the destination decides
+            base = re.sub(r'<.*$', '', self._dest_ty).split('::')[-1]
+            if base in self.variant_owner[last]: return self.mk_enum(base, last, args)
         raise Unsupported('rvalue ' + s)
 
     def int_cast(self, v, src, dst):
@@ -886,6 +890,7 @@ class Executor:
                 i = self.assign_split(st)
                 if i < 0: raise Unsupported('statement ' + st)
                 lhs, rhs = st[:i], st[i + 3:]
+                self._dest_ty = f.locals.get(lhs.strip()) if re.match(r'^_\d+$', lhs.strip()) else None
                 v = self.rvalue(frame, rhs, f)
                 c = self.cell_of(frame, self.parse_place(lhs))
                 if isinstance(c, tuple): raise Unsupported('assign to downcast')
